@@ -27,4 +27,24 @@ for be in BACKS:
                 '_Bool check_guard(fsm_t* fsm, event_t evt)', 'rows_back.spec.h',
                 xform=back_xform(TEMPL, TV, throwers=['ROW_guard_call'], exc_ret='0'),
                 defines=['HAS_GUARD=1', 'HAS_ACTION=%d' % a], fire={'TCALL': (1, 1)}, replay=['order']))
-UNITS_ALL = UNITS
+
+    # internal rows: irow_ family (state-internal, in the transition table) and internal_ family (internal tables)
+    IPROPS = ['C02', 'C01', 'C03', 'C13']
+    CG = "static bool check_guard ( library_sm & fsm , transition_event"
+    fams = []
+    for (st, g, a) in (('irow_', 1, 1), ('g_irow_', 1, 0), ('a_irow_', 0, 1), ('_irow_', 0, 0)):
+        sig = "static HandledEnum execute ( library_sm & %s , int , int state , transition_event" % ('fsm' if (g or a) else '')
+        fams.append((st, ['struct ' + st], sig, g, a, 0))
+    for (st, g, a) in (('internal_', 1, 1), ('g_internal_', 1, 0), ('a_internal_', 0, 1), ('_internal_', 0, 0)):
+        sig = "static HandledEnum execute ( library_sm & %s , int , int , transition_event" % ('fsm' if (g or a) else '')
+        fams.append((st + '.state', ['struct ' + st + ' {'], sig, g, a, 0))
+        fams.append((st + '.sm', ['struct ' + st + ' < ROW , library_sm >'], sig, g, a, 1))
+    for (nm, scope, sig, g, a, smi) in fams:
+        D = ['HAS_GUARD=%d' % g, 'HAS_ACTION=%d' % a, 'ROW_INTERNAL=1', 'ROW_SM_INTERNAL=%d' % smi]
+        UNITS.append(Unit('%s.%s.execute' % (be, nm), IPROPS, be, Part(H, scope, sig, expect_anchors=1),
+            'HandledEnum irow_execute(fsm_t* fsm, int region_index, int state, event_t evt)', 'rows_back.spec.h', xform=xf,
+            defines=D, fire={'TCALL': (a, a)}, replay=['order']))
+        if g:
+            UNITS.append(Unit('%s.%s.check_guard' % (be, nm), ['C02', 'C01'], be, Part(H, scope, CG, expect_anchors=1),
+                '_Bool check_guard(fsm_t* fsm, event_t evt)', 'rows_back.spec.h',
+                xform=back_xform(TEMPL, TV, throwers=['ROW_guard_call'], exc_ret='0'), defines=D, fire={'TCALL': (1, 1)}, replay=['order']))
